@@ -416,7 +416,12 @@ func (dec *xmlReader) Bitmask(realtag, tag int) (int32, error) {
 		var parsed int64
 		var err error
 		if strings.HasPrefix(part, "0x") {
-			parsed, err = strconv.ParseInt(part[2:], 16, 32)
+			// A mask is a 32-bit pattern: its highest bit is written as
+			// 0x80000000, which does not fit a signed 32-bit parse.
+			var u uint64
+			u, err = strconv.ParseUint(part[2:], 16, 32)
+			//nolint:gosec // reinterpreting the 32 bits pattern as a signed mask
+			parsed = int64(int32(uint32(u)))
 		} else {
 			parsed, err = strconv.ParseInt(part, 10, 32)
 			if err != nil {
